@@ -91,11 +91,12 @@ def _check_definition(carrier, pl, doc):
         d.update(detail)
         fails.append({'site': site, 'what': what0, 'detail': d})
 
-    for ending in ('', ')'):
-        script = _script(prog['code'] + call + ending + '\n')
+    # one module: the closed call on one line, the call being typed at the end of the file
+    script = _script(prog['code'] + call + ')\n' + call)
+    for ending, line in ((')', nlines + 1), ('', nlines + 2)):
         run = _guard(fails, '', what0)
         evals += 1
-        ok, sigs = run(script.get_signatures, nlines + 1, len(call))
+        ok, sigs = run(script.get_signatures, line, len(call))
         if not ok:
             continue
         if len(sigs) != 1:
@@ -114,8 +115,8 @@ def _check_definition(carrier, pl, doc):
             fail('params-mismatch', ending=ending, expected=exp_params, observed=obs['params'])
         if obs['name'] != prog['name']:
             fail('name-mismatch', expected=prog['name'], observed=obs['name'])
-        if obs['bracket_start'] != [nlines + 1, len(call) - 1]:
-            fail('bracket_start-mismatch', ending=ending, expected=[nlines + 1, len(call) - 1],
+        if obs['bracket_start'] != [line, len(call) - 1]:
+            fail('bracket_start-mismatch', ending=ending, expected=[line, len(call) - 1],
                  observed=obs['bracket_start'])
         # to_string() wrapped in `def ...: pass` re-parses to an equal signature
         try:
@@ -152,7 +153,7 @@ def _check_definition(carrier, pl, doc):
             # the same through infer() on the called name
             col = len(call) - 2
             evals += 1
-            ok, names = run(script.infer, nlines + 1, col)
+            ok, names = run(script.infer, line, col)
             if ok:
                 if len(names) != 1:
                     fail('infer-count', observed=[n.description for n in names])
@@ -224,6 +225,8 @@ def _work_definitions(task):
 # --------------------------------------------------------------------------- index level
 
 def _cell_id(carrier, pl, callee, before, after):
+    if after is None:        # a whole call text
+        return '%s:%s|%s(%s' % (carrier, M.plist_id(pl), callee, before)
     return '%s:%s|%s(%s^%s' % (carrier, M.plist_id(pl), callee, before, after)
 
 
@@ -235,7 +238,7 @@ def _site(cur, pre):
     return cls
 
 
-def _probe(script, line, col, oracle, pre, cur, nparams, exp_bracket):
+def _probe(script, line, col, oracle, pre, cur, exp_params, exp_bracket):
     """-> (failure (site, detail) or None, observation class)"""
     try:
         sigs = script.get_signatures(line, col)
@@ -243,16 +246,20 @@ def _probe(script, line, col, oracle, pre, cur, nparams, exp_bracket):
             return ('signature-count', {'observed': [s.to_string() for s in sigs]}), None
         idx = sigs[0].index
         bs = tuple(sigs[0].bracket_start)
+        params = [[p.name, p.kind.name] for p in sigs[0].params]
     except BaseException as e:
         if isinstance(e, (KeyboardInterrupt, SystemExit)):
             raise
         return (canon.exc_site(e), {'traceback': canon.short_tb(e)}), None
+    if params != exp_params:
+        # the index refers to the reported list: without the right list it cannot be judged
+        return ('params-mismatch@call-site', {'expected': exp_params, 'observed': params}), None
     if bs != exp_bracket:
         return ('bracket_start-mismatch', {'expected': list(exp_bracket), 'observed': list(bs)}), None
     status, allowed = oracle.allowed(pre, cur)
     if status != 'judged':
-        if idx is not None and not (isinstance(idx, int) and 0 <= idx < nparams):
-            return ('index-out-of-range', {'observed': idx, 'nparams': nparams}), status
+        if idx is not None and not (isinstance(idx, int) and 0 <= idx < len(exp_params)):
+            return ('index-out-of-range', {'observed': idx, 'nparams': len(exp_params)}), status
         return None, status
     if idx not in allowed:
         return ('index-mismatch@' + _site(cur, pre),
@@ -262,92 +269,167 @@ def _probe(script, line, col, oracle, pre, cur, nparams, exp_bracket):
     return None, '%s:%s:%s' % (kind, cur[0], 'None' if idx is None else 'param')
 
 
+CHEAP = ('fn', 'meth', 'umeth', 'sm', 'init')   # carriers whose fresh analysis costs ~3 ms
+
+
 def _work_index(task):
-    """One (carrier, parameter list): every call text x every slot position, complete and
-    truncated at the cursor."""
+    """One (carrier, parameter list): every call text x every slot position.
+
+    `complete` variant: the rest of the call stands behind the cursor.  All call texts of the
+    task are lines of ONE module (one analysis); a cell that fails there is re-run in a module
+    of its own, which is what gets reported (`batch-only` if it fails only in company).
+    `truncated` variant: the text ends at the cursor — one module per distinct text."""
     carrier, pl, tier, kmax = task['carrier'], task['pl'], task['tier'], task['kmax']
+    tmax = task.get('tmax', 0)        # truncated variant for calls of <= tmax arguments
     prog = M.build_program(carrier, pl, 'one')
     ref = M.Reference(prog)
     oracle = M.IndexOracle(ref.sig)
-    nparams = len(ref.sig.parameters)
+    exp_params = [[p.name, p.kind.name] for p in ref.sig.parameters.values()]
     names = [p[1] for p in pl] + (['x'] if carrier == 'xw' else [])
     forms = M.arg_alphabet(names, tier)
     callee = prog['callee']
     code = prog['code']
-    line = code.count('\n') + 1
+    line0 = code.count('\n') + 1
     c0 = len(callee) + 1
-    exp_bracket = (line, len(callee))
     fails = []
     counts = {}
-    seen_trunc = set()
     evals = cells = 0
-    only = task.get('only')       # replay: a single (before, after)
+    only = task.get('only')       # replay: [before, after, mode]
 
-    def record(before, after, res):
+    def probe(script, line, off, pre, cur):
+        return _probe(script, line, c0 + off, oracle, pre, cur, exp_params, (line, len(callee)))
+
+    def record(before, after, res, mode):
         f, cls = res
         if f is not None:
             fails.append({'site': f[0], 'what': _cell_id(carrier, pl, callee, before, after),
-                          'detail': dict(f[1], definition=code,
-                                         call=callee + '(' + before + '|' + after,
+                          'mode': mode,
+                          'detail': dict(f[1], definition=code, mode=mode,
+                                         call=callee + '(' + before + (
+                                             '' if after is None else '|' + after),
                                          **{'inspect.signature': str(ref.sig)})})
         else:
             counts[cls] = counts.get(cls, 0) + 1
 
-    for args, probes in M.call_texts(forms, kmax):
-        if only is not None:
-            # replay of one recorded cell
+    texts = list(M.call_texts(forms, kmax))
+    module = code + ''.join('%s(%s)\n' % (callee, args) for args, _p, _k in texts)
+
+    def standalone(args):
+        return _script('%s%s(%s)\n' % (code, callee, args))
+
+    if only is not None:
+        for li, (args, probes, _k) in enumerate(texts):
+            if only[1] is None:
+                # a whole call text (wrong parameter list at every cursor position)
+                if args != only[0]:
+                    continue
+                off, pre, cur = probes[0]
+                if only[2] == 'batch-only':
+                    res = probe(_script(module), line0 + li, off, pre, cur)
+                else:
+                    res = probe(standalone(args), line0, off, pre, cur)
+                record(args + ')', None, res, only[2])
+                return {'fails': fails, 'evals': 1, 'cells': 1, 'counts': counts}
             for off, pre, cur in probes:
                 if args[:off] != only[0]:
                     continue
                 if only[1] == '':
-                    script = _script(code + callee + '(' + args[:off])
-                elif args[off:] + ')' == only[1]:
-                    script = _script(code + callee + '(' + args + ')\n')
-                else:
+                    res = probe(_script(code + callee + '(' + args[:off]), line0, off, pre, cur)
+                elif args[off:] + ')' != only[1]:
                     continue
-                evals += 1
-                record(only[0], only[1], _probe(script, line, c0 + off, oracle, pre, cur,
-                                                nparams, exp_bracket))
-                return {'fails': fails, 'evals': evals, 'cells': 1, 'counts': counts}
-            continue
-        script = _script(code + callee + '(' + args + ')\n')
+                elif only[2] == 'batch-only':
+                    res = probe(_script(module), line0 + li, off, pre, cur)
+                else:
+                    res = probe(standalone(args), line0, off, pre, cur)
+                record(only[0], only[1], res, only[2])
+                return {'fails': fails, 'evals': 1, 'cells': 1, 'counts': counts}
+        return {'fails': fails, 'evals': 0, 'cells': 0, 'counts': counts}
+
+    script = _script(module)
+    for li, (args, probes, _k) in enumerate(texts):
+        results = []
         for off, pre, cur in probes:
             evals += 1
             cells += 1
-            record(args[:off], args[off:] + ')',
-                   _probe(script, line, c0 + off, oracle, pre, cur, nparams, exp_bracket))
+            results.append(probe(script, line0 + li, off, pre, cur))
+        bad = [r for r in results if r[0] is not None]
+        if not bad:
+            for r in results:
+                record(None, None, r, 'complete')
+            continue
+        alone = standalone(args)
+        if len(bad) == len(results) and all(r[0][0] == 'params-mismatch@call-site' for r in bad):
+            # the wrong parameter list does not depend on the cursor: one finding per call text
+            evals += 1
+            off, pre, cur = probes[0]
+            r0 = probe(alone, line0, off, pre, cur)
+            if r0[0] is not None and r0[0][0] == 'params-mismatch@call-site':
+                record(args + ')', None, r0, 'complete')
+            else:
+                record(args + ')', None, bad[0], 'batch-only')
+            continue
+        for (off, pre, cur), res in zip(probes, results):
+            if res[0] is None:
+                record(None, None, res, 'complete')
+                continue
+            evals += 1
+            r1 = probe(alone, line0, off, pre, cur)
+            if r1[0] is not None:
+                record(args[:off], args[off:] + ')', r1, 'complete')
+            else:
+                record(args[:off], args[off:] + ')', res, 'batch-only')
+    seen_trunc = set()
+    for args, probes, _k in texts:
         for off, pre, cur in probes:
+            if len(pre) + (0 if cur[0] == 's3' else 1) > tmax:
+                continue      # more arguments typed than this task explores without batching
             before = args[:off]
             if before in seen_trunc:
                 continue
             seen_trunc.add(before)
-            script = _script(code + callee + '(' + before)
             evals += 1
             cells += 1
-            record(before, '', _probe(script, line, c0 + off, oracle, pre, cur, nparams,
-                                      exp_bracket))
+            record(before, '', probe(_script(code + callee + '(' + before), line0, off, pre, cur),
+                   'truncated')
     _drop_parser_cache()
     return {'fails': fails, 'evals': evals, 'cells': cells, 'counts': counts}
+
+
+def _work(task):
+    import time
+    t0 = time.process_time()
+    r = globals()[task['fn'].split(':')[1]](task)
+    r['cpu'] = round(time.process_time() - t0, 3)
+    return r
 
 
 # --------------------------------------------------------------------------- levels
 
 def _levels(tier):
     nmax = 3 if tier == 'quick' else 4
+    others = [c for c in M.CARRIERS if c != 'fn']
     lv = []
-    # 1. every decorated list x every carrier (docstring layout rotates with the list)
+    plain_keys = [d for d in M.DOC_KEYS if d != 'concat']
+    # 1. every decorated list as a function (docstring layout rotates with the list); the other
+    #    carriers on every kind skeleton plain and fully decorated (quick) / on every list
     tasks = []
     k = 0
-    plain_keys = [d for d in M.DOC_KEYS if d != 'concat']
     for n in range(nmax + 1):
         for sk in M.skeletons(n):
+            full = M.make_plist(sk, M.full_decoration(sk))
             for dec in M.decorations(sk):
-                tasks.append({'id': 'def:' + M.plist_id(M.make_plist(sk, dec)),
-                              'pl': M.make_plist(sk, dec), 'carriers': list(M.CARRIERS),
+                pl = M.make_plist(sk, dec)
+                carriers = ['fn']
+                if tier == 'thorough' or pl == full or not any(p[2] or p[3] for p in pl):
+                    carriers += others
+                tasks.append({'id': 'def:' + M.plist_id(pl), 'pl': pl, 'carriers': carriers,
                               'doc': plain_keys[k % len(plain_keys)]})
                 k += 1
-    lv.append(('definitions(<=%d params x default x annotation x %d carriers)'
-               % (nmax, len(M.CARRIERS)), 'jv.props.c11:_work_definitions', tasks))
+    tasks.sort(key=lambda t: -len(t['carriers']))
+    lv.append(('definitions(<=%d params x default x annotation; %s)'
+               % (nmax, 'all 9 carriers' if tier == 'thorough' else
+                  'function on every list, 9 carriers on every kind skeleton plain + decorated'),
+               'jv.props.c11:_work_definitions', tasks))
     # 2. every docstring layout x every carrier on three lists
     tasks = []
     for sk in ((), ('pk',), ('po', 'pk', 'va', 'ko')):
@@ -355,31 +437,42 @@ def _levels(tier):
             pl = M.make_plist(sk, M.full_decoration(sk) if len(sk) == 1 else None)
             tasks.append({'id': 'doc:%s:%s' % (doc, M.plist_id(pl)), 'pl': pl,
                           'carriers': list(M.CARRIERS), 'doc': doc})
-    lv.append(('docstring layouts(%d) x carriers' % len(M.DOC_KEYS),
+    lv.append(('docstring layouts(%d) x 9 carriers x 3 lists' % len(M.DOC_KEYS),
                'jv.props.c11:_work_definitions', tasks))
     # 3. index cells
     tasks = []
     for n in range(nmax + 1):
         for sk in M.skeletons(n):
             variants = [M.make_plist(sk)]
-            if any(k_ not in ('va', 'vk') for k_ in sk) or sk:
-                full = M.make_plist(sk, M.full_decoration(sk))
-                if full != variants[0]:
-                    variants.append(full)
+            full = M.make_plist(sk, M.full_decoration(sk))
+            if full != variants[0]:
+                variants.append(full)
             for vi, pl in enumerate(variants):
                 for carrier in M.CARRIERS:
                     if not M.carrier_applicable(carrier, pl):
                         continue
+                    cheap = carrier in CHEAP
                     if tier == 'quick':
-                        kmax = 2
+                        if not cheap and vi:
+                            continue      # wrappers / classmethod: plain lists only
+                        if carrier == 'cm' and len(pl) > 2:
+                            continue      # (0.3 s per analysed call)
+                        kmax = 2 if cheap else 1
+                        tmax = (2 if carrier == 'fn' else 1) if (
+                            vi == 0 and cheap) else 0
                     else:
-                        kmax = 3 if (vi == 0 and carrier in ('fn', 'meth', 'init', 'pw')) else 2
+                        kmax = (3 if vi == 0 else 2) if cheap else 2
+                        tmax = ((3 if carrier == 'fn' else 2) if vi == 0 else 1) if cheap else 1
                     tasks.append({'id': 'idx:%s:%s' % (carrier, M.plist_id(pl)),
-                                  'carrier': carrier, 'pl': pl, 'tier': tier, 'kmax': kmax})
+                                  'carrier': carrier, 'pl': pl, 'tier': tier, 'kmax': kmax,
+                                  'tmax': tmax})
     # big tasks first so that the pool's tail is short
-    tasks.sort(key=lambda t: (-t['kmax'], -len(t['pl'])))
-    lv.append(('index cells(<=%d params, plain + fully decorated, calls of <=%s arguments)'
-               % (nmax, '2' if tier == 'quick' else '3 (fn/meth/init/pw plain) / 2'),
+    tasks.sort(key=lambda t: (-t['kmax'], -t['tmax'], -len(t['pl'])))
+    lv.append(('index cells(<=%d params, plain + fully decorated, 9 carriers; %s)'
+               % (nmax, 'calls of <=2 arguments, text cut at the cursor for plain lists on '
+                  'fn/meth/umeth/sm/init' if tier == 'quick' else
+                  'calls of <=3 (plain) / <=2 arguments; text cut at the cursor: <=3 arguments fn, '
+                  '<=2 meth/umeth/sm/init, <=1 otherwise'),
                'jv.props.c11:_work_index', tasks))
     if tier == 'thorough':
         tasks = []
@@ -387,7 +480,7 @@ def _levels(tier):
             for sk in M.skeletons(n):
                 pl = M.make_plist(sk)
                 tasks.append({'id': 'idx:fn:' + M.plist_id(pl), 'carrier': 'fn', 'pl': pl,
-                              'tier': 'quick', 'kmax': 2})
+                              'tier': 'quick', 'kmax': 2, 'tmax': 2})
         lv.append(('index cells(kind skeletons of 5-6 params, function, calls of <=2 arguments)',
                    'jv.props.c11:_work_index', tasks))
     return lv
@@ -415,44 +508,55 @@ def run(ctx):
     done = []
     exhaustive = True
     samples = []
-    for name, fn, tasks in _levels(ctx.tier):
-        if ctx.time_left() < 5:
-            exhaustive = False
-            ctx.note('level %s not started (time cap)' % name)
+    # all levels go through ONE pool (a worker's first analysis costs ~2 s); tasks are dealt in
+    # level order, so every worker does its simplest tasks first
+    levels = _levels(ctx.tier)
+    tasks = []
+    for li, (name, fn, lt) in enumerate(levels):
+        for t in lt:
+            tasks.append(dict(t, level=li, fn=fn))
+    pres = pool.run(tasks, 'jv.props.c11:_work', init='jv.props.c11:_init', seed=ctx.seed,
+                    deadline=ctx.deadline, tag='c11')
+    ctx.absorb(pres, 'c11')
+    skipped = {}
+    cpu = {}
+    for i in pres.skipped:
+        skipped[tasks[i]['level']] = skipped.get(tasks[i]['level'], 0) + 1
+    for i, t in enumerate(tasks):
+        fn = t['fn']
+        if i in pres.crashed:
+            ctx.violation('WorkerDied(exit=%s)' % pres.crashed[i], t['id'], {'task': t},
+                          {'task': t, 'fn': fn, 'what': None})
             continue
-        pres = pool.run(tasks, fn, init='jv.props.c11:_init', seed=ctx.seed,
-                        deadline=ctx.deadline, tag='c11')
-        ctx.absorb(pres, name)
-        for i, t in enumerate(tasks):
-            if i in pres.crashed:
-                ctx.violation('WorkerDied(exit=%s)' % pres.crashed[i], t['id'], {'task': t},
-                              {'task': t, 'fn': fn})
+        r = pres.results.get(i)
+        if r is None:
+            continue
+        states += r['cells']
+        trans += r['evals']
+        ck = '%s/%s' % (t['level'], t.get('carrier', 'definitions'))
+        cpu[ck] = round(cpu.get(ck, 0) + r.get('cpu', 0), 1)
+        for k, v in r.get('counts', {}).items():
+            classes[k] = classes.get(k, 0) + v
+        for k, v in r.get('carriers', {}).items():
+            carriers[k] = carriers.get(k, 0) + v
+        if 'carrier' in t:
+            carriers[t['carrier']] = carriers.get(t['carrier'], 0) + 1
+        for f in r['fails']:
+            if f['site'].startswith('HARNESS:'):
+                ctx.harness_error('%s on %s: %r' % (f['site'], f['what'], f['detail']))
                 continue
-            r = pres.results.get(i)
-            if r is None:
-                continue
-            states += r['cells']
-            trans += r['evals']
-            for k, v in r.get('counts', {}).items():
-                classes[k] = classes.get(k, 0) + v
-            for k, v in r.get('carriers', {}).items():
-                carriers[k] = carriers.get(k, 0) + v
-            if 'carrier' in t:
-                carriers[t['carrier']] = carriers.get(t['carrier'], 0) + 1
-            for f in r['fails']:
-                if f['site'].startswith('HARNESS:'):
-                    ctx.harness_error('%s on %s: %r' % (f['site'], f['what'], f['detail']))
-                    continue
-                case = {'fn': fn, 'task': t, 'what': f['what']}
-                ctx.violation(f['site'], f['what'], f['detail'], case)
-        if pres.skipped:
+            case = {'fn': fn, 'task': {k: v for k, v in t.items() if k not in ('level', 'fn')},
+                    'what': f['what'], 'mode': f.get('mode')}
+            ctx.violation(f['site'], f['what'], f['detail'], case)
+    for li, (name, fn, lt) in enumerate(levels):
+        if skipped.get(li):
             exhaustive = False
             ctx.note('level %s: %d of %d tasks not explored (time cap)'
-                     % (name, len(pres.skipped), len(tasks)))
+                     % (name, skipped[li], len(lt)))
         else:
-            done.append('%s: %d tasks' % (name, len(tasks)))
-        if tasks:
-            samples.append({'level': name, 'task': tasks[len(tasks) // 2]['id']})
+            done.append('%s: %d tasks' % (name, len(lt)))
+        if lt:
+            samples.append({'level': name, 'task': lt[len(lt) // 2]['id']})
     judged = sum(v for k, v in classes.items() if k.startswith(('strict', 'accept')))
     ctx.coverage.update({
         'states': states, 'transitions': trans, 'evaluations': trans,
@@ -465,6 +569,7 @@ def run(ctx):
         'index_cells_by_class': dict(sorted(classes.items())),
         'index_cells_judged': judged,
         'tasks_by_carrier': dict(sorted(carriers.items())),
+        'worker_cpu_s_by_level_and_carrier': cpu,
         'oracle_validation_upstream_table': {k: v for k, v in val.items() if k != 'failures'},
         'levels_completed': done, 'exhaustive': exhaustive, 'samples': samples,
         'slot_classes': {'s1': 'complete literal (strict)', 's2': 'after name= (strict)',
@@ -498,9 +603,11 @@ def replay(case):
     if fn == '_work_index':
         what = case['what']
         head, _, rest = what.partition('|')
-        callee_before, _, after = rest.partition('^')
+        callee_before, mark, after = rest.partition('^')
         before = callee_before.split('(', 1)[1]
-        t['only'] = [before, after]
+        if not mark:
+            before, after = before[:-1], None     # whole call text `callee(args)`
+        t['only'] = [before, after, case.get('mode', 'complete')]
         r = _work_index(t)
     else:
         r = _work_definitions(t)
